@@ -13,7 +13,8 @@ R8 sub-pyramid restriction
 """
 import ast
 
-from sa import sym
+from sa import sym, boolalg
+from sa.teval import teval, UNKNOWN
 from sa.sym import show, atoms_of, num, num_value
 from sa.cfg import CFG, enclosing_stmts
 from sa.model import callee_attr, dotted, own_calls, own_nodes
@@ -38,8 +39,23 @@ MANIFEST = {
 PYR = "toasty.pyramid"
 
 
+def _reducer_slots(t):
+    """Protocol knowledge: the 4th item handed out by the reduction iterator is the list of the four child slots."""
+    if t[0] == "item" and t[2] == 3 and t[1][0] == "elem" and "_make_iter_reducer" in show(t[1][1]):
+        return 4
+    return None
+
+
 def _ev(project):
-    return sym.make_evaluator(project, PYR, [PYR + ".pos_parent", PYR + ".pos_children"])
+    ev = sym.make_evaluator(project, PYR, [PYR + ".pos_parent", PYR + ".pos_children"])
+    ev.static_len = _reducer_slots
+    ev.unroll = True
+    return ev
+
+
+def _about(pc, el):
+    """The literals of a path condition that speak about the loop element *el* (guards that precede the loop are assumptions)."""
+    return [(c, pol) for c, pol in pc if c != "loop" and el in atoms_of(c)]
 
 
 def run(run):
@@ -316,77 +332,85 @@ def _dispatcher(run, ev):
         k, it, lnode = prep_loops[0]
         el = ("elem", it)
         pos_t, leaf_t, data_t = ("item", el, 0), ("item", el, 2), ("item", el, 3)
-        live_any = ("op", "or", tuple(("sub", ("sub", data_t, num(i)), num(0)) for i in range(4)))
-        is_live = ("ite", leaf_t, sym.TRUE, live_any)
+        d = [("item", ("item", data_t, i), 0) for i in range(4)]
+        is_live = ("op", "or", (leaf_t,) + tuple(d))
         want_level = sym.cmp("Eq", ("attr", pos_t, "n"), _spec(ev, "s.depth - 1", s=("sym", "self")))
+        # a leaf sits at n == depth, never at depth - 1
+        given = ("op", "not", (("op", "and", (leaf_t, want_level)),))
         if len(seed_puts) != 1:
             run.violated("C01.R3", f, (seed_puts[0].node if seed_puts else lnode), "%d seeding puts on the ready queue before the workers start "
                          "(expected exactly one, in the preparation loop)" % len(seed_puts), kind="seed-sites")
         else:
             e = seed_puts[0]
-            conds = [c for c in e.pc if c[0] != "loop"]
-            flat = []
-            for c, pol in conds:
-                if c[0] == "op" and c[1] == "and" and pol:
-                    flat += [(x, True) for x in c[2]]
-                else:
-                    flat.append((c, pol))
-            has_level = (want_level, True) in flat
-            has_live = (is_live, True) in flat
+            cond = boolalg.conj(_about(e.pc, el))
+            want = ("op", "and", (want_level, is_live))
             arg_ok = e.term[2] and e.term[2][0] == pos_t
+            eq = boolalg.equiv(cond, want, given=given)
             if not arg_ok:
                 run.violated("C01.R3", f, e.node, "seeding enqueues %s instead of the visited position" % show(e.term[2][0])[:120], kind="seed-arg")
-            elif has_level and has_live and len(flat) == 2:
+            elif eq is True:
                 run.holds("C01.R3", f, e.node, "seeded: tiles at depth-1 that are live")
-            elif has_level and not has_live:
-                others = [show(c)[:100] for c, p in flat if c != want_level]
-                run.violated("C01.R3", f, e.node, "tiles just above the leaves are seeded %s; they must be seeded only if live "
-                             "(filter may accept a tile but none of its children)" % ("under " + ", ".join(others) if others else "unconditionally"),
-                             kind="seed-liveness")
-            elif has_live and not has_level:
-                lv = [show(c)[:120] for c, p in flat if c != is_live]
-                run.violated("C01.R3", f, e.node, "seeding level test is %s, expected pos.n == self.depth - 1" % (lv or "missing"), kind="seed-level")
+            elif eq is None or want_level not in boolalg.atoms_of_cond(cond):
+                lv = [("" if p else "not ") + show(c)[:120] for c, p in _about(e.pc, el)]
+                if eq is None:
+                    run.undecided("C01.R3", f, e.node, "seeding guard %s not recognised" % lv, kind="seed-guard")
+                else:
+                    run.violated("C01.R3", f, e.node, "seeding level test is %s, expected pos.n == self.depth - 1" % (lv or "missing"), kind="seed-level")
             else:
-                run.undecided("C01.R3", f, e.node, "seeding guard %s not recognised" % [show(c)[:80] for c, p in flat], kind="seed-guard")
-        # pre-readied bits: inner loop for i in range(4): if not data[i][0]: pre |= 1 << i
-        inner = [(kk, itt, nn) for kk, itt, nn in r.loops if show(itt) == "range((4))" and any(x is nn for x in ast.walk(lnode))]
-        ok_pre = False
-        detail = ""
-        if inner:
-            kk, itt, inode = inner[0]
-            i_t = ("elem", itt)
-            ass = [x for x in r.events if x.kind == "assign" and ("loop", kk) in x.pc]
-            for x in ass:
-                name, val = x.term[1]
-                if val[0] == "op" and val[1] == "bitor":
-                    sh = [y for y in val[2] if y[0] == "op" and y[1] == "lshift"]
-                    conds = [c for c in x.pc if c[0] != "loop"]
-                    dead_i = ("op", "not", (("sub", ("sub", data_t, i_t), num(0)),))
-                    if sh and num_value(sh[0][2][0]) == 1 and sh[0][2][1] == i_t and (dead_i, True) in conds:
-                        ok_pre = True
-                    else:
-                        detail = "bit %s under %s" % (show(sh[0][2][1]) if sh else "?", [show(c)[:80] for c, p in conds])
+                run.violated("C01.R3", f, e.node, "tiles just above the leaves are seeded under `%s`; they must be seeded exactly when live "
+                             "(a filter may accept a tile but none of its children); differs for: %s" % (
+                                 show(cond)[:160], boolalg.counterexample(cond, want, given=given)), kind="seed-liveness")
+        # pre-readied bits: for every liveness pattern of the four children, the flags stored for a non-leaf tile
+        # (0 when nothing is stored) are exactly the bits of the dead children
         st_all = [x for x in r.events if x.kind == "store" and ("loop", k) in x.pc and x.term[1][0][0] == "sub"
                   and "readiness" in show(x.term[1][0][1])]
         st_pre = [x for x in st_all if _key_kind(x.term[1][0][2], pos_t) in ("identity", "fields")]
-        nonleaf = any((("op", "not", (leaf_t,)), True) in [c for c in x.pc if c[0] != "loop"] for x in st_pre)
         if st_all and not st_pre:
             run.undecided("C01.R3", f, st_all[0].node, "pre-readied flags are stored under the derived key %s instead of the position itself; "
                           "injectivity of that key over (n, x, y) cannot be established" % show(st_all[0].term[1][0][2])[:160],
                           kind="readiness-key")
-        elif ok_pre and st_pre and nonleaf:
-            run.holds("C01.R3", f, inner[0][2], "bit i pre-set exactly for dead child i; stored under the tile's own position, non-leaf only")
-        elif not inner:
-            run.violated("C01.R3", f, lnode, "no loop over the four children pre-setting the bits of dead children: a parent with a "
+        elif not st_pre:
+            run.violated("C01.R3", f, lnode, "no pre-set bits for dead children are stored in readiness[pos]: a parent with a "
                          "filtered-out child is never released", kind="no-pre-ready")
-        elif not ok_pre:
-            run.violated("C01.R3", f, inner[0][2], "pre-readied bits are not `1 << i` for children with data[i][0] false (%s)" % detail,
-                         kind="pre-ready-bits")
         else:
-            run.violated("C01.R3", f, lnode, "pre-readied flags are not stored in readiness[pos] for non-leaf tiles", kind="pre-ready-store")
+            import itertools
+            bad = None
+            unknown = None
+            for vals in itertools.product((False, True), repeat=4):
+                env = {leaf_t: False}
+                env.update(dict(zip(d, vals)))
+                stored = 0
+                for x in st_pre:
+                    c = teval(boolalg.conj(_about(x.pc, el)), env)
+                    if c is UNKNOWN:
+                        unknown = (x, "condition")
+                        break
+                    if c:
+                        v = teval(x.term[1][1], env)
+                        if v is UNKNOWN:
+                            unknown = (x, "value")
+                            break
+                        stored = v
+                if unknown:
+                    break
+                want_bits = sum((0 if vals[i] else 1) << i for i in range(4))
+                if stored != want_bits:
+                    bad = (vals, stored, want_bits, st_pre[-1])
+                    break
+            if unknown:
+                run.undecided("C01.R3", f, unknown[0].node, "cannot evaluate the %s of the pre-readied store %s" % (
+                    unknown[1], show(unknown[0].term[1][1])[:120]), kind="pre-ready-shape")
+            elif bad:
+                vals, stored, want_bits, x = bad
+                run.violated("C01.R3", f, x.node, "pre-readied flags are wrong: for children liveness %s readiness[pos] becomes %s, expected %s "
+                             "(bit i set exactly for dead child i)" % (list(vals), bin(stored) if isinstance(stored, int) else stored, bin(want_bits)),
+                             kind="pre-ready-bits")
+            else:
+                run.holds("C01.R3", f, st_pre[0].node, "bit i pre-set exactly for dead child i (all 16 liveness patterns); stored under the tile's own position")
         # liveness handed to the reduction equals the liveness used for seeding
         sd = [e for e in r.events if e.kind == "call" and e.term[1][0] == "attr" and e.term[1][2] == "set_data" and ("loop", k) in e.pc]
-        if sd and sd[0].term[2] and sd[0].term[2][0][0] == "tuple" and sd[0].term[2][0][1][0] == is_live:
+        if sd and sd[0].term[2] and sd[0].term[2][0][0] == "tuple" and boolalg.equiv(sd[0].term[2][0][1][0], is_live) is True \
+                and not _about(sd[0].pc, el):
             run.holds("C01.R3", f, sd[0].node, "the liveness recorded for the parent level is the liveness used for seeding")
         elif sd:
             run.violated("C01.R3", f, sd[0].node, "set_data records %s, not (is_live, ops) with is_live = leaf or any live child" %
@@ -577,21 +601,24 @@ def _r6_serial(run, ev):
     k, it, lnode = loops[0]
     el = ("elem", it)
     pos_t, leaf_t, data_t = ("item", el, 0), ("item", el, 2), ("item", el, 3)
-    live_any = ("op", "or", tuple(("sub", data_t, num(i)) for i in range(4)))
+    live_any = ("op", "or", tuple(("item", data_t, i) for i in range(4)))
     e = cbs[0]
-    conds = [c for c in e.pc if c[0] != "loop"]
-    okc = (leaf_t, False) in conds and (live_any, True) in conds and len(conds) == 2
+    cond = boolalg.conj(_about(e.pc, el))
+    want = ("op", "and", (("op", "not", (leaf_t,)), live_any))
+    okc = boolalg.equiv(cond, want)
     arg_ok = e.term[2] == (pos_t,)
     sd = [x for x in r.events if x.kind == "call" and x.term[1][0] == "attr" and x.term[1][2] == "set_data" and ("loop", k) in x.pc]
-    sd_ok = bool(sd) and sd[0].term[2] and sd[0].term[2][0] == ("ite", leaf_t, sym.TRUE, live_any) \
-        and not [c for c in sd[0].pc if c[0] != "loop"]
-    if okc and arg_ok and sd_ok:
+    sd_ok = bool(sd) and sd[0].term[2] and boolalg.equiv(sd[0].term[2][0], ("op", "or", (leaf_t, live_any))) is True \
+        and not _about(sd[0].pc, el)
+    if okc is True and arg_ok and sd_ok:
         run.holds("C01.R6", f, e.node, "serial: callback(pos) iff non-leaf with a live child; same liveness handed upwards")
     elif not arg_ok:
         run.violated("C01.R6", f, e.node, "serial callback is called with %s instead of the visited position" % show(e.term[2])[:120], kind="serial-arg")
+    elif okc is None:
+        run.undecided("C01.R6", f, e.node, "serial callback condition %s has too many atoms to compare" % show(cond)[:160], kind="serial-callback-condition")
     elif not okc:
-        run.violated("C01.R6", f, e.node, "serial callback runs under %s; expected: not is_leaf and (data[0] or data[1] or data[2] or data[3])"
-                     % [("" if p else "not ") + show(c)[:100] for c, p in conds], kind="serial-callback-condition")
+        run.violated("C01.R6", f, e.node, "serial callback runs under %s; expected: not is_leaf and (data[0] or data[1] or data[2] or data[3]); differs for: %s"
+                     % (show(cond)[:200], boolalg.counterexample(cond, want)), kind="serial-callback-condition")
     else:
         run.violated("C01.R6", f, (sd[0].node if sd else lnode), "serial reduction records %s as liveness" % (show(sd[0].term[2][0])[:120] if sd else "nothing"),
                      kind="serial-liveness")
@@ -658,14 +685,21 @@ def _r8_subpyramid(run, ev):
     outer = project.fn(PYR + "._make_position_filter")
     # deeper than the apex -> True; else membership in the ancestor set
     rets = [(pc, t) for pc, t, n in r2.returns]
-    ok = len(rets) == 2 and rets[0][1] == sym.TRUE and len(rets[0][0]) == 1 and rets[0][0][0][1] is True \
-        and rets[0][0][0][0][0] == "op" and rets[0][0][0][0][1] == "cmp:Gt" and show(rets[0][0][0][0][2][0]).endswith(".n") \
-        and rets[1][1][0] == "op" and rets[1][1][1] == "cmp:In"
-    if ok:
-        run.holds("C01.R8", f, None, "position filter accepts positions below the apex level and the apex's ancestors")
+    accepted = ("op", "or", tuple(("op", "and", (boolalg.conj(pc), t)) for pc, t in rets)) if rets else sym.FALSE
+    posp = ("sym", f.params()[0]) if f.params() else ("sym", "pos")
+    members = [a for a in atoms_of(accepted) if a[0] == "op" and a[1] == "cmp:In" and a[2][0] == posp]
+    below = sym.cmp("Gt", ("attr", posp, "n"), ("sym", "level"))
+    if len(members) == 1:
+        want = ("op", "or", (below, members[0]))
+        eq = boolalg.equiv(accepted, want)
     else:
-        run.violated("C01.R8", f, None, "position filter is %s; expected `pos.n > level -> True; else pos in ancestors`" %
-                     [([show(c[0])[:60] for c in pc], show(t)[:60]) for pc, t in rets], kind="position-filter")
+        eq = False
+    if eq is True:
+        run.holds("C01.R8", f, None, "position filter accepts positions below the apex level and the apex's ancestors")
+    elif eq is None:
+        run.undecided("C01.R8", f, None, "position filter %s cannot be compared" % show(accepted)[:200], kind="position-filter")
+    else:
+        run.violated("C01.R8", f, None, "position filter accepts %s; expected `pos.n > level or pos in ancestors`" % show(accepted)[:200], kind="position-filter")
     # iterator stops above the apex
     f = project.fn(PYR + ".PyramidReductionIterator.__next__")
     stop = False
